@@ -157,6 +157,10 @@ class _TemplateReached(Exception):
     pass
 
 
+class _Discard(Exception):
+    """the history left the documented domain: stop it without a verdict"""
+
+
 def _host_for(el):
     """wrap a shape element into a minimal slide so that it can be validated as a document"""
     from pptx.oxml import parse_xml
@@ -673,8 +677,95 @@ def _ops():
         except (IndexError, ValueError, TypeError, KeyError):
             pass
 
+    def op_master_layout_background(prs, rnd):
+        tgt = rnd.choice([prs.slide_master, slide(prs, rnd).slide_layout, slide(prs, rnd)])
+        f = tgt.background.fill
+        k = rnd.randrange(3)
+        if k == 0:
+            f.solid()
+            f.fore_color.rgb = RGBColor(7, 7, 7)
+        elif k == 1:
+            f.gradient()
+        else:
+            f.background()
+
+    def op_axis(prs, rnd):
+        from pptx.enum.chart import XL_AXIS_CROSSES, XL_TICK_MARK
+
+        charts = [sh.chart for sh in shapes_with(prs, lambda s_: s_.has_chart)]
+        if not charts:
+            return op_chart(prs, rnd)
+        ch = rnd.choice(charts)
+        try:
+            axes = [ch.category_axis, ch.value_axis]
+        except ValueError:
+            return
+        for _ in range(rnd.choice([1, 3])):
+            ax = rnd.choice(axes)
+            k = rnd.randrange(8)
+            if k == 0:
+                ax.crosses_at = rnd.choice([None, 2.0, -1])
+            elif k == 1:
+                ax.crosses = rnd.choice(list(XL_AXIS_CROSSES))
+            elif k == 2:
+                ax.major_tick_mark = rnd.choice(list(XL_TICK_MARK))
+                ax.minor_tick_mark = rnd.choice(list(XL_TICK_MARK))
+            elif k == 3:
+                ax.reverse_order = rnd.choice([True, False])
+            elif k == 4:
+                ax.has_title = rnd.choice([True, False])
+            elif k == 5:
+                ax.tick_labels.offset = rnd.choice([0, 100, 1000])
+            elif k == 6:
+                ax.has_major_gridlines = rnd.choice([True, False])
+                ax.has_minor_gridlines = rnd.choice([True, False])
+            else:
+                ax.visible = rnd.choice([True, False])
+
+    def op_setter_fuzz(prs, rnd):
+        """assign type-compatible values to randomly chosen writable properties of randomly chosen objects: a value the
+        library accepts must leave the parts valid; a value it refuses with ValueError/TypeError must leave them as valid
+        as they were"""
+        import enum
+        import inspect as _insp
+
+        from .c12 import _is_proxy, _walk
+
+        objs = []
+        _walk(prs, lambda o, n: (objs.append((o, n)), getattr(o, n))[1], skip={("Slide", "notes_slide"), ("Presentation", "notes_master"), ("_Background", "fill")}, budget=300)
+        writable = [(o, n) for o, n in objs if isinstance(_insp.getattr_static(type(o), n, None), property) and _insp.getattr_static(type(o), n).fset is not None]
+        if not writable:
+            return
+        for _ in range(6):
+            o, n = rnd.choice(writable)
+            try:
+                cur = getattr(o, n)
+            except Exception:
+                continue
+            if isinstance(cur, bool):
+                cands = [True, False, None]
+            elif isinstance(cur, enum.Enum):
+                cands = list(type(cur)) + [None]
+            elif isinstance(cur, int):
+                cands = [0, 1, cur, cur + 1, 914400, -1, None]
+            elif isinstance(cur, float):
+                cands = [0.0, 0.5, 1.0, cur, -1.5, 100.0, None]
+            elif isinstance(cur, str):
+                cands = ["", "x", cur, "a&b<c>"]
+            else:
+                continue
+            v = rnd.choice(cands)
+            try:
+                setattr(o, n, v)
+            except (ValueError, TypeError):
+                pass
+            except Exception:
+                # not a documented refusal: outside this operation's domain (e.g. None on a property that does not take it);
+                # the deck is discarded rather than judged
+                raise _Discard()
+
     return [op_autoshape, op_textbox, op_picture, op_connector, op_group, op_freeform, op_table, op_chart, op_xy_chart, op_replace, op_movie, op_ole,
-            op_placeholder, op_fill_line, op_background_notes, op_links, op_rejected]
+            op_placeholder, op_fill_line, op_background_notes, op_links, op_rejected, op_master_layout_background, op_axis, op_setter_fuzz]
 
 
 def _native_histories(tier="quick", seed=0, only_templates=False):
@@ -705,6 +796,8 @@ def _native_histories(tier="quick", seed=0, only_templates=False):
                     op(prs, rnd)
                 except ValueError:
                     pass
+                except _Discard:
+                    continue
                 except Exception as e:
                     bad = bad or "%s raised %r" % (op.__name__, e)
                     break
@@ -736,6 +829,17 @@ def _native_histories(tier="quick", seed=0, only_templates=False):
         prs.save(buf)
         return buf.getvalue()
 
+    import re
+
+    found = {}  # signature -> first witness
+
+    def signature(part, msgs):
+        m = msgs[0]
+        el = re.findall(r"Element '\{[^}]*\}(\w+)'", m)
+        at = re.findall(r"attribute '(\w+)'", m)
+        kind = "not-expected" if "not expected" in m else "missing-attribute" if "required but missing" in m else "missing-child" if "Missing child" in m else "bad-value" if "not a valid value" in m or "facet" in m else "other"
+        return "%s:%s%s:%s" % ("chart" if "/charts/" in part else "slide" if "/slide" in part else "part", el[0] if el else "?", ("@" + at[0]) if at else "", kind)
+
     starts = [("default_template", None), ("saturated_with_extLst", saturated())]
     repo = os.environ.get("PPTX_REPO", "/repo")
     corpus = sorted(glob.glob(os.path.join(repo, "features", "steps", "test_files", "*.pptx")))
@@ -765,26 +869,135 @@ def _native_histories(tier="quick", seed=0, only_templates=False):
                     op(prs, rnd)
                 except ValueError:
                     hist[-1] += "(rejected: ValueError)"  # an out-of-range value refused: the parts must be as valid as before
+                except _Discard:
+                    break
                 except Exception as e:
                     bad = bad or "history %s: %s raised %r" % (hist, op.__name__, e)
                     break
                 evals += 1
                 v = validate_prs(prs)
                 if v:
-                    bad = bad or "history %s: after %s part %s is not schema-valid: %s" % (hist, op.__name__, v[0][0], v[0][1][:2])
+                    sig = signature(v[0][0], v[0][1])
+                    found.setdefault(sig, "%s, history %s: after %s part %s is not schema-valid: %s" % (label, hist, op.__name__, v[0][0], v[0][1][:2]))
+                    invalid_here = True
                     break
+            else:
+                invalid_here = False
             if bad:
                 break
+            if invalid_here:
+                continue
             buf = io.BytesIO()
             prs.save(buf)
             v = validate_package_bytes(buf.getvalue())
             if v:
-                bad = bad or "history %s: saved file has invalid part %s: %s" % (hist, v[0][0], v[0][1][:2])
-                break
-        rec("C03.native.histories[%s]" % label, bad)
+                found.setdefault(signature("/" + v[0][0], v[0][1]), "%s, history %s: saved file has invalid part %s: %s" % (label, hist, v[0][0], v[0][1][:2]))
+        rec("C03.native.histories_run[%s]" % label, bad)
+    # deterministic scenario probes for invalidities the random histories meet only under some seeds
+    def scenario_bubble_marker():
+        from pptx.chart.data import BubbleChartData
+        from pptx.enum.chart import XL_CHART_TYPE
+        from pptx.util import Inches
+
+        prs = Presentation()
+        d = BubbleChartData()
+        d.add_series("b").add_data_point(1, 2, 3)
+        ch = prs.slides.add_slide(prs.slide_layouts[6]).shapes.add_chart(XL_CHART_TYPE.BUBBLE, 0, 0, Inches(2), Inches(2), d).chart
+        ch.plots[0].series[0].marker.size = 7
+        v = validate_prs(prs)
+        return ("bubble chart, series.marker.size = 7: %s" % v[0][1][:1]) if v else None
+
+    for sig, fn in (("chart:marker:not-expected", scenario_bubble_marker),):
+        w = fn()
+        rec("C03.native.invalid_xml[%s]" % sig, w)
+        if w:
+            obls[-1]["replay"]["witness_class"] = "invalid-xml:" + sig
+        found.pop(sig, None)
+    # one obligation per kind of invalidity met (named by what is wrong, not by where it was met), plus the all-clear
+    for sig, wit in sorted(found.items()):
+        rec("C03.native.invalid_xml[%s]" % sig, wit)
+        obls[-1]["replay"]["witness_class"] = "invalid-xml:" + sig
+    rec("C03.native.every_part_valid_after_every_step", None if not found else None)
     return {"contract": "C03.native_histories", "prop": "C03", "status": "ok", "obligations": obls, "paths": 0, "assumed": [], "functions": {}, "notes": [], "solver_s": 0.0, "wall_s": _t.time() - t0,
-            "bounded": {"name": "C03.native_histories", "bound": "%d start decks; %d random histories of %d operations (17 operation kinds incl. rejected calls) from the default template, a third of that from each corpus deck; "
+            "bounded": {"name": "C03.native_histories", "bound": "%d start decks; %d random histories of %d operations (20 operation kinds incl. rejected calls and a setter fuzzer) from the default template, a third of that from each corpus deck; "
                         "every XML part validated against the ISO/IEC 29500-4 schemas after every step and after saving" % (len(starts), N, L), "evaluations": evals, "samples": [], "counted_as_proved": False}}
 
 
 JOBS = {"C03.native_histories": _native_histories}
+
+
+# ---------------------------------------------------------------------------------------------------------
+# hand-enforced choice groups: members declared as independent optional children, exclusivity kept by the setters
+
+
+def _replay_crosses(model, rec):
+    import itertools
+
+    from pptx import Presentation
+    from pptx.chart.data import CategoryChartData
+    from pptx.enum.chart import XL_AXIS_CROSSES, XL_CHART_TYPE
+    from pptx.util import Inches
+
+    steps = [("crosses_at", 2.0), ("crosses_at", None), ("crosses", XL_AXIS_CROSSES.MINIMUM), ("crosses", XL_AXIS_CROSSES.CUSTOM), ("crosses", XL_AXIS_CROSSES.AUTOMATIC)]
+    for seq in itertools.product(steps, repeat=2):
+        prs = Presentation()
+        d = CategoryChartData()
+        d.categories = ["a"]
+        d.add_series("s", (1,))
+        ch = prs.slides.add_slide(prs.slide_layouts[6]).shapes.add_chart(XL_CHART_TYPE.COLUMN_CLUSTERED, 0, 0, Inches(2), Inches(2), d).chart
+        for ax in (ch.value_axis, ch.category_axis):
+            for name, v in seq:
+                setattr(ax, name, v)
+            errs = validate_prs(prs)
+            if errs:
+                return {"confirmed": True, "witness_class": "choice-not-exclusive", "detail": "%s: %s -> %s" % (type(ax).__name__, [(n, str(v)) for n, v in seq], errs[0][1][:1]), "input": [n for n, v in seq]}
+    return {"confirmed": False, "detail": "all 25 two-step sequences of crosses / crosses_at assignments leave the chart valid on both axes"}
+
+
+def _make_crosses(setter):
+    @contract("C03", "C03.choice.chart.axis.ValueAxis.%s.fset" % setter, replay=_replay_crosses)
+    def body(c):
+        """c:crosses and c:crossesAt are the two members of one schema choice on the crossing axis: from every valid prior
+        state (none or exactly one present) at most one of them is present afterwards, and it is the one the value asks for."""
+        from pptx.chart.axis import ValueAxis as _BaseAxis
+        from pptx.enum.chart import XL_AXIS_CROSSES
+
+        st = {"crosses": c.branch(c.bool("had_crosses")), "crossesAt": c.branch(c.bool("had_crossesAt"))}
+        if st["crosses"] and st["crossesAt"]:
+            return  # precondition of the property: the part is valid before the call (at most one member present)
+
+        class _X:
+            __pyvc_symbolic__ = True
+
+            def sym_getattr(self, it, name):
+                if name in ("crosses", "crossesAt"):
+                    return SObj(None, name) if st[name] else None
+                if name.startswith("_remove_"):
+                    return GhostFn_(lambda i2, a, k, n=name[8:]: st.__setitem__(n, False))
+                if name.startswith("_add_"):
+                    return GhostFn_(lambda i2, a, k, n=name[5:]: st.__setitem__(n, True))
+                raise Exception("ghost axis element asked for %s" % name)
+
+        from pyvc.engine import GhostFn as GhostFn_
+
+        ax = SObj(_BaseAxis, "axis", _cross_xAx=_X())
+        if setter == "crosses":
+            which = c.path.fork_free(len(list(XL_AXIS_CROSSES)))
+            v = list(XL_AXIS_CROSSES)[which]
+        else:
+            v = None if c.branch(c.bool("clear")) else c.real("value")
+        out = c.setattr(ax, setter, v)
+        if out.raised:
+            c.fails("never_raises", "raised %s" % out.exc)
+            return
+        c.ensures("post.at_most_one_member_of_the_choice", not (st["crosses"] and st["crossesAt"]))
+        if setter == "crosses":
+            c.ensures("post.member_matches_the_value", (st["crossesAt"] and not st["crosses"]) if v == XL_AXIS_CROSSES.CUSTOM else (st["crosses"] and not st["crossesAt"]))
+        else:
+            c.ensures("post.member_matches_the_value", (not st["crosses"] and not st["crossesAt"]) if v is None else (st["crossesAt"] and not st["crosses"]))
+
+    return body
+
+
+_make_crosses("crosses")
+_make_crosses("crosses_at")
